@@ -126,7 +126,10 @@ def roundtrip_task(task):
         # some hands turn the board over one card at a time (several BoardDealing operations per street): a street is still one group
         piecemeal = rng.random() < 0.3
         au = tuple(a for a in autos if not (piecemeal and a == A.BOARD_DEALING))
-        game = (pk.NoLimitTexasHoldem(au, True, 0, (50, 100), 100) if nl else pk.FixedLimitTexasHoldem(au, True, 0, (50, 100), 100, 200))
+        # cash-game hands may contain a fold that faces no bet, and a winner who tables his cards after everybody folded
+        cash = rng.random() < 0.4
+        kw = {'mode': pk.Mode.CASH_GAME} if cash else {}
+        game = (pk.NoLimitTexasHoldem(au, True, 0, (50, 100), 100, **kw) if nl else pk.FixedLimitTexasHoldem(au, True, 0, (50, 100), 100, 200, **kw))
         s = game(stack, n)
         committed = [0] * n
         for i in range(n):
@@ -150,7 +153,7 @@ def roundtrip_task(task):
                     s.complete_bet_or_raise_to(amt)
                     total = s.starting_stacks[a] - s.stacks[a]
                     raise_tokens.append(('r%d' % total) if nl else 'r')
-                elif r < 0.45 and s.can_fold() and s.bets[a] < max(s.bets):
+                elif r < 0.45 and s.can_fold() and (s.bets[a] < max(s.bets) or (cash and rng.random() < 0.5)):
                     s.fold()
                     ref_actions += 'f'
                 else:
@@ -158,6 +161,10 @@ def roundtrip_task(task):
                     ref_actions += 'c'
             if s.status:
                 continue
+            if cash and sum(s.statuses) == 1 and rng.random() < 0.6:
+                w = s.statuses.index(True)
+                if s.can_show_or_muck_hole_cards(True, w):
+                    s.show_or_muck_hole_cards(True, w)       # the winner of a fold-out tables his cards
         except Exception:     # noqa
             continue
         # separators: one per board dealing, placed where the dealing happened in the log
@@ -223,7 +230,8 @@ def roundtrip_task(task):
                     break
                 for j in range(n):
                     if j != viewer and seats[j]:
-                        showed = ''.join(repr(c) for o in s.operations if type(o).__name__ == 'HoleCardsShowingOrMucking' and o.player_index == j for c in o.hole_cards if c)
+                        shows = [o for o in s.operations if type(o).__name__ == 'HoleCardsShowingOrMucking' and o.player_index == j and o.hole_cards]
+                        showed = ''.join(repr(c) for c in shows[-1].hole_cards if c) if shows else ''       # what he tabled last
                         if seats[j] != showed:
                             fails.append(('acpc-other-seat-visible', h, viewer, j, seats[j], showed))
         except Exception as e:      # noqa
